@@ -397,7 +397,7 @@ Section WithCodec.
   Definition mdown (s : mst) (dirs : nat -> fdir) (next : nat) (tried : list bulk) : mst :=
     MSt dirs next None (ms_acked s) tried (ms_ops s).
 
-  Definition mstep (s : mst) (o : mhop) : res mst :=
+  Definition mstep0 (s : mst) (o : mhop) : res mst :=
     match o, ms_proc s with
     | MRestart, _ =>
         match startup (ms_dirs s) (ms_next s) with
@@ -486,6 +486,20 @@ Section WithCodec.
             | None => Panic
             end
         end
+    end.
+
+  (* the directory is a finite table: fractions from ms_next on do not exist (this also keeps the
+     evaluation of long histories linear) *)
+  Definition freeze (dirs : nat -> fdir) (n : nat) : nat -> fdir :=
+    let l := map dirs (seq 0 n) in fun i => nth i l no_fd.
+  Definition mfreeze (s : mst) : mst :=
+    MSt (freeze (ms_dirs s) (ms_next s)) (ms_next s) (ms_proc s) (ms_acked s) (ms_tried s) (ms_ops s).
+
+  Definition mstep (s : mst) (o : mhop) : res mst :=
+    match mstep0 s o with
+    | Ok s' => Ok (mfreeze s')
+    | Panic => Panic
+    | OutOfFuel => OutOfFuel
     end.
 
   Fixpoint mrun_from (s : mst) (h : list mhop) : res mst :=
